@@ -1022,3 +1022,105 @@ proof fn lemma_ts_trichotomy(a: Ts, b: Ts)
          cmp_fn("try_lt", "<", 2, "bytes_lt_x", "ts_lt_x", "a < b", "bytes_lt(a.b@, b.b@)", "ts_lt(a, b)"),
          cmp_fn("try_le", "<=", 3, "bytes_le", "ts_le", "a <= b", "!bytes_lt(b.b@, a.b@)", "!ts_lt(b, a)")],
 )
+
+
+# ------------------------------------------------------------------------------------------------
+# C28: collection laws reachable by contracts: slice (positional indexing), length, merge
+RW_EXPECTED = dict(**{"from": r"value => Err\(ValueError::Expected \{.*?\}\s*\.into\(\)\),", "regex": True, "count": 1,
+                      "to": "value => Err(err_expected(value)),", "why": "type-error construction (Kind bit-sets, From<ValueError>) opaque"})
+MERGE_LOOP = """let ghost __m0 = map1.m@;
+    let ghost mut __done: Set<u64> = Set::empty();
+    let mut __entries = map2.ref_entries();
+    while __entries.len() > 0
+        invariant
+            forall|i: int| 0 <= i < __entries@.len() ==> map2.m@.dom().contains((#[trigger] __entries@[i]).0.id) && map2.m@[__entries@[i].0.id] == *__entries@[i].1 && !__done.contains(__entries@[i].0.id),
+            forall|i: int, j: int| 0 <= i < j < __entries@.len() ==> (#[trigger] __entries@[i]).0.id != (#[trigger] __entries@[j]).0.id,
+            forall|id: u64| map2.m@.dom().contains(id) ==> (#[trigger] __done.contains(id)) || exists|i: int| 0 <= i < __entries@.len() && (#[trigger] __entries@[i]).0.id == id,
+            forall|id: u64| (#[trigger] __done.contains(id)) ==> map2.m@.dom().contains(id),
+            forall|id: u64| (#[trigger] map1.m@.dom().contains(id)) == (__m0.dom().contains(id) || __done.contains(id)),
+            forall|id: u64| (#[trigger] map1.m@.dom().contains(id)) && !__done.contains(id) ==> map1.m@[id] == __m0[id],
+            forall|id: u64| (#[trigger] __done.contains(id)) ==> merged_at(map1.m@, __m0, map2.m@, deep, id),
+        decreases __entries@.len(),
+    {
+        let ghost __before = __entries@;
+        let ghost __done0 = __done;
+        let ghost __m1 = map1.m@;
+        let (key2, value2) = __entries.pop().unwrap();
+        proof {
+            __done = __done.insert(key2.id);
+            assert forall|id: u64| map2.m@.dom().contains(id) implies (#[trigger] __done.contains(id)) || exists|i: int| 0 <= i < __entries@.len() && (#[trigger] __entries@[i]).0.id == id by {
+                if !__done0.contains(id) && id != key2.id {
+                    let i = choose|i: int| 0 <= i < __before.len() && (#[trigger] __before[i]).0.id == id;
+                    assert(__before[__before.len() - 1].0.id == key2.id);
+                    assert(i < __before.len() - 1);
+                    assert(__entries@[i] == __before[i]);
+                }
+            }
+            assert(__before[__before.len() - 1].0.id == key2.id);
+            assert(!__done0.contains(key2.id));
+        }"""
+MERGE_STEP = """
+        proof {
+            // hint: the key just processed satisfies the law at every depth; every other key is untouched
+            if __m1.dom().contains(key2.id) { assert(__m1[key2.id] == __m0[key2.id]); }
+            assert forall|d: nat| merged_key(map1.m@, __m0, map2.m@, deep, d, key2.id) by {
+                if d > 0 && deep && __m0.dom().contains(key2.id) && __m0[key2.id] is Object && map2.m@[key2.id] is Object {
+                    assert(merged(map1.m@[key2.id]->Object_0.m@, __m0[key2.id]->Object_0.m@, map2.m@[key2.id]->Object_0.m@, deep, (d - 1) as nat));
+                }
+            }
+            assert forall|id: u64| (#[trigger] __done.contains(id)) implies merged_at(map1.m@, __m0, map2.m@, deep, id) by {
+                assert forall|d: nat| merged_key(map1.m@, __m0, map2.m@, deep, d, id) by {
+                    if id != key2.id { assert(__done0.contains(id)); assert(merged_at(__m1, __m0, map2.m@, deep, id)); assert(merged_key(__m1, __m0, map2.m@, deep, d, id)); assert(map1.m@[id] == __m1[id]); }
+                }
+            }
+        }
+    }"""
+MERGE_END = """    proof {
+        assert forall|d: nat| merged(map1.m@, __m0, map2.m@, deep, d) by {
+            assert forall|k: u64| (#[trigger] map1.m@.dom().contains(k)) implies merged_key(map1.m@, __m0, map2.m@, deep, d, k) by {
+                if map2.m@.dom().contains(k) { assert(__done.contains(k)); assert(merged_at(map1.m@, __m0, map2.m@, deep, k)); }
+            }
+        }
+    }"""
+UNITS["v_collections"] = dict(
+    prop=["C28"], tier="q", prelude=["collections.rs"], native_witness={"C28": ["collection_laws"]},
+    fns=[
+        dict(id="slice", file="src/stdlib/slice.rs", impl=None, name="slice",
+             orig_sig="fn slice(start: i64, end: Option<i64>, value: Value) -> Resolved",
+             sig="pub fn slice(start: i64, end: Option<i64>, value: Value) -> (r: Resolved)",
+             rewrites=[
+                 dict(**{"from": "let range = |len: i64| -> ExpressionResult<Range<usize>> {", "count": 1,
+                         "to": "let range = |len: i64| -> (o: ExpressionResult<core::ops::Range<usize>>)\n        requires 0 <= len\n        ensures (match spec_range(start, end, len as int) { Some((s, e)) => o is Ok && o->Ok_0.start == s && o->Ok_0.end == e, None => o is Err })\n    {",
+                         "why": "contract stated on the `range` closure (spec only; the closure body is the real one)"}),
+                 dict(**{"from": r"Err\(format!\(.*?\)\.into\(\)\)", "regex": True, "count": 1, "to": "Err(err_msg())", "why": "error message text (format!) opaque"}),
+                 dict(**{"from": r'Err\(r#".*?"#\.into\(\)\)', "regex": True, "count": 1, "to": "Err(err_msg())", "why": "error message text opaque"}),
+                 dict(**{"from": r"range\(v\.len\(\) as i64\)\s*\.map\(\|range\| (.*?)\)\s*\.map\(Value::from\),", "regex": True, "count": 2,
+                         "to": r"(match range(len_i64(v.len())) { Ok(range) => Ok((\1).into_value()), Err(e) => Err(e) }),",
+                         "why": "Result::map chain by definition; From<Bytes>/From<Vec<Value>> for Value; `len as i64` is the length (std allocation bound, prelude len_i64)"}),
+                 dict(**{"from": "v.drain(range).collect::<Vec<_>>()", "count": 1, "to": "vec_drain_collect(&mut v, range)", "why": "Vec::drain + collect as one std contract: the removed sub-sequence in order"}),
+                 RW_EXPECTED],
+             ensures=[("C28.slice.array_positional", "slice on an array returns exactly the elements at positions [start, min(end, len)) of the input, in order, with negative positions counted from the end; out-of-range start or end < start is an error (every array, every i64 start/end)",
+                       "(match value { Value::Array(v) => (match spec_range(start, end, v@.len() as int) { Some((s, e)) => r is Ok && r->Ok_0 is Array && r->Ok_0->Array_0@ == v@.subrange(s, e), None => r is Err }), _ => true })"),
+                      ("C28.slice.bytes_positional", "slice on a string returns exactly the bytes at positions [start, min(end, len)), with negative positions counted from the end; out-of-range start or end < start is an error",
+                       "(match value { Value::Bytes(v) => (match spec_range(start, end, v.b@.len() as int) { Some((s, e)) => r is Ok && r->Ok_0 is Bytes && r->Ok_0->Bytes_0.b@ == v.b@.subrange(s, e), None => r is Err }), _ => true })"),
+                      ("C28.slice.type_error", "slice on anything but a string or array is an error", "(value is Object || value is Integer || value is Other) ==> r is Err")],
+             safety_id="C28.slice.safety", safety_text="index arithmetic cannot overflow, the casts to usize are of non-negative values, and the range handed to Bytes::slice / Vec::drain satisfies start <= end <= len (no panic)"),
+        dict(id="length", file="src/stdlib/length.rs", impl=None, name="length",
+             orig_sig="fn length(value: Value) -> Resolved",
+             sig="pub fn length(value: Value) -> (r: Resolved)",
+             rewrites=[dict(**{"from": r"\.len\(\)\.into\(\)", "regex": True, "to": ".len().into_value()", "why": "From<usize> for Value"}), RW_EXPECTED],
+             ensures=[("C28.length.agrees", "length of an array is its number of elements, of an object its number of keys, of a string its number of bytes",
+                       "(match value { Value::Array(v) => r is Ok && r->Ok_0 == Value::Integer(v@.len() as i64), Value::Object(o) => r is Ok && r->Ok_0 == Value::Integer(o.m@.dom().len() as i64), Value::Bytes(b) => r is Ok && r->Ok_0 == Value::Integer(b.b@.len() as i64), _ => r is Err })")],
+             safety_id="C28.length.safety"),
+        dict(id="merge_maps", file="src/stdlib/merge.rs", impl=None, name="merge_maps",
+             orig_sig="fn merge_maps<K>(map1: &mut BTreeMap<K, Value>, map2: &BTreeMap<K, Value>, deep: bool) where K: std::cmp::Ord + Clone,",
+             sig="#[verifier::exec_allows_no_decreases_clause]\npub fn merge_maps(map1: &mut ObjectMap, map2: &ObjectMap, deep: bool)",
+             rewrites=[dict(**{"from": "for (key2, value2) in map2 {", "count": 1, "to": MERGE_LOOP,
+                               "why": "`for (k, v) in &BTreeMap` = each entry exactly once in some order (ref_entries + pop); loop invariant injected here because the loop is produced by this rewrite"}),
+                       dict(**{"from": r"\}\s*\}\s*\}\s*$", "regex": True, "count": 1, "to": "}\n        }" + MERGE_STEP + "\n", "why": "proof hint (ghost only) at the end of the loop body"})],
+             body_end=MERGE_END,
+             ensures=[("C28.merge.law", "merge(to, from): the result has exactly the keys of both; a key only in `to` keeps its value; a key in `from` has from's value, except that a deep merge of two objects under the same key is the merge of those objects -- to every nesting depth (every pair of objects)",
+                       "forall|d: nat| merged(final(map1).m@, old(map1).m@, map2.m@, deep, d)")],
+             safety_id="C28.merge.safety", safety_text="body obligations; termination of the recursion (bounded by the nesting depth of `from`) is not claimed"),
+    ],
+)
